@@ -4,3 +4,6 @@ package scipipe
 
 // verifPoint is a no-op unless the library is built with the "verif" tag.
 func verifPoint(name string, keys ...string) {}
+
+// verifPortName is only evaluated for the arguments of verifPoint; without the tag it returns the empty string.
+func verifPortName(proc WorkflowProcess, name string) string { return "" }
